@@ -121,7 +121,7 @@ func (a *analysis) kAt(v ssa.Value, blk *ssa.BasicBlock) kind {
 			switch {
 			case onTrue && (b.Op == token.GTR && cv >= -1 || b.Op == token.GEQ && cv >= 0 || b.Op == token.NEQ && cv == -1):
 				return kStable
-			case !onTrue && (b.Op == token.EQL && cv == -1 || b.Op == token.LSS && cv <= 0 || b.Op == token.LEQ && cv <= -1):
+			case !onTrue && (b.Op == token.EQL && cv == -1 || b.Op == token.LSS && cv >= 0 || b.Op == token.LEQ && cv >= -1):
 				return kStable
 			}
 		}
